@@ -17,5 +17,8 @@ func init() {
 			Doc: "totalBits = TotalWeight().BitLen(); the shift is totalBits-31 when this holds"},
 		{Module: "PosBig", Name: "shiftInit", File: B, Func: "ValidatorsBigBuilder.Build", Sel: "assign:shift", Mode: "nat",
 			Result: "Nat", Doc: "the shift when the test above fails"},
+		{Module: "PosBig", Name: "shiftValue", File: B, Func: "ValidatorsBigBuilder.Build", Sel: "assign:shift#1", Mode: "nat",
+			Vars: map[string]string{"totalBits": "totalBits"}, Params: []string{"totalBits"}, Result: "Nat",
+			Doc: "the shift when the test holds (totalBits > 31, so the subtraction cannot underflow)"},
 	}...)
 }
